@@ -16,6 +16,7 @@ func init() {
 			{Name: "H_C12_remove_all", Tier: "quick", Opts: ei, What: "EI: n=1..3 vertices all removed (no flush), then 1..2 new vectors: non-empty, exact; Flush afterwards: reachable", Covers: []string{"live", "exact-clause"}},
 			{Name: "H_C12_interleave", Tier: "quick", Opts: ei, What: "EI: 5 steps, each adding the next vector (<=4) or removing any live one: chains of soft-deleted vertices; non-empty, exact", Covers: []string{"live", "exact-clause"}},
 			{Name: "H_C12_reach6", Tier: "quick", Opts: ei, What: "EI: 6 vertices (layer-0 pruning starts) in the region 'five within distance 4, the sixth at distance >= 8': reachability", Covers: []string{}},
+			{Name: "H_C12_band", Tier: "quick", Opts: ei, What: "EI: ten vertices on a concrete line, a soft-deleted band (start 1..6, width 2..4, optionally the entry-point side too) and one more Add at any integer coordinate (prunes the lists bordering the band): reachability, non-empty, sound", Covers: []string{"live", "built"}},
 			{Name: "H_C12_t1", Tier: "quick", What: "T1 (all float32): 3 metrics, d<=2, n=2..3: exact k-NN, reachability", Covers: []string{"exact-clause"}},
 			{Name: "H_C12_t1_remove", Tier: "quick", What: "T1: l2 and cosine, n=3, Remove one of the first two (entry point included), optional Flush: non-empty, exact", Covers: []string{"exact-clause"}},
 			{Name: "H_C12_small5", Tier: "thorough", Opts: ei, What: "EI: n=5 (> 2M: soundness, non-emptiness, reachability)", Covers: []string{"live"}},
